@@ -18,7 +18,6 @@ import (
 	"regexp"
 	"sort"
 	"strconv"
-	"strings"
 
 	influxdb "github.com/influxdata/influxdb/v2"
 	"github.com/influxdata/influxdb/v2/authorization"
@@ -155,7 +154,7 @@ func toPerms(js []jperm) []influxdb.Permission {
 // ---------- Gallina rendering ----------
 
 func permTerm(j jperm) string {
-	return fmt.Sprintf("{| act := %s; res := {| rtype := %s; rid := %s; rorg := %s |} |}",
+	return fmt.Sprintf("(Build_perm %s (Build_resource %s %s %s))",
 		vh.N(actIn.ID(j.Action)), vh.N(typeIn.ID(j.Type)), vh.OptN(j.ID), vh.OptN(j.Org))
 }
 func permsTerm(js []jperm) string {
@@ -211,7 +210,7 @@ func opTerm(o *jop) string {
 	case "create":
 		n := *o.New
 		n.ID = o.NewID
-		call = fmt.Sprintf("(CCreate %s %s %s %s)", k, vh.N(uint64(o.Var)), resTerm(n), vh.Ns(o.SysIDs))
+		call = fmt.Sprintf("(CCreate %s %s %s)", vh.N(uint64(o.Var)), resTerm(n), vh.Ns(o.SysIDs))
 	case "update":
 		call = fmt.Sprintf("(CUpdate %s %s %s %s %s)", k, vh.N(uint64(o.Var)), vh.N(o.ID), vh.N(o.Pay), vh.Bool(o.Active))
 	case "delete":
@@ -256,7 +255,7 @@ func newWorld() *world {
 	st := tenant.NewStore(s)
 	st.IDGen = &seqGen{}
 	st.OrgIDGen = &seqGen{}
-	st.BucketIDGen = &seqGen{}
+	st.BucketIDGen = &seqGen{next: 100} // disjoint from org ids: tenant's URM cleanup filters by resource id only
 	ten := tenant.NewService(st)
 	ten.Apply(tenant.WithTaskService(noTasks{}))
 	ast, err := authorization.NewStore(ctx, s, false)
@@ -526,9 +525,7 @@ func (w *world) exec(vw *vh.W, ctx context.Context, o *jop) {
 		m = "OrgService.CreateOrganization"
 		g := &influxdb.Organization{Name: w.fresh("o"), Description: fmt.Sprintf("d%d", o.New.Pay)}
 		err = w.ow.CreateOrganization(ctx, g)
-		if err == nil {
-			o.NewID = uint64(g.ID)
-		}
+		o.NewID = uint64(g.ID) // set even when a later step (system buckets, owner mapping) fails
 	case "org/update":
 		m = "OrgService.UpdateOrganization"
 		d := fmt.Sprintf("d%d", o.Pay)
@@ -686,6 +683,7 @@ func (w *world) exec(vw *vh.W, ctx context.Context, o *jop) {
 	}
 	w.cur = post
 	vw.Count("method", m)
+	methodsSeen[m]++
 	vw.Count("class", []string{"ok", "unauthorized", "forbidden", "notfound", "other"}[o.Cls])
 	if o.Cls == 1 || o.Cls == 2 {
 		vw.Count("denied_store", map[bool]string{true: "unchanged", false: "CHANGED"}[o.Post == nil])
@@ -747,6 +745,43 @@ func run(vw *vh.W, c *jcase) {
 	}
 }
 
+// probeEscalation replays the Coq witness C29_token_no_escalation_refuted on the real code,
+// end to end: the caller (write on the buckets of org 1 only) is refused the update of bucket
+// 106 of org 2, creates a token granting {write, buckets, id=106, org=1} through the authed
+// wrapper (VerifyPermissions passes), and that token — used as the authorizer — updates
+// bucket 106 of org 2 through the same BucketService wrapper.
+func probeEscalation(vw *vh.W) {
+	w := newWorld()
+	w.setup([]jsetup{{Kind: "user", Pay: 10}, {Kind: "org", Pay: 21}, {Kind: "org", Pay: 22},
+		{Kind: "bucket", Org: 1, Pay: 31}, {Kind: "bucket", Org: 2, Pay: 32}})
+	caller := &influxdb.Authorization{ID: 999999, UserID: 1, Status: influxdb.Active, Permissions: toPerms([]jperm{
+		{"write", "buckets", nil, u(1)}, {"write", "authorizations", nil, u(1)}, {"read", "authorizations", nil, u(1)},
+		{"write", "users", u(1), nil}, {"read", "users", u(1), nil}})}
+	ctx := icontext.SetAuthorizer(context.Background(), caller)
+	d := "d77"
+	_, err1 := w.bw.UpdateBucket(ctx, 106, influxdb.BucketUpdate{Description: &d})
+	tok := &influxdb.Authorization{OrgID: 1, UserID: 1, Status: influxdb.Active, Token: "probe", Permissions: toPerms([]jperm{{"write", "buckets", u(106), u(1)}})}
+	err2 := w.aw[1].CreateAuthorization(ctx, tok)
+	res := map[string]interface{}{"caller_update_bucket_106_of_org_2": fmt.Sprint(err1), "create_token_write_bucket_106_org_1": fmt.Sprint(err2)}
+	if err2 == nil {
+		stored, err := w.auth.FindAuthorizationByID(context.Background(), tok.ID)
+		if err == nil {
+			ctx2 := icontext.SetAuthorizer(context.Background(), stored)
+			_, err3 := w.bw.UpdateBucket(ctx2, 106, influxdb.BucketUpdate{Description: &d})
+			b, _ := w.ten.FindBucketByID(context.Background(), 106)
+			res["new_token_update_bucket_106_of_org_2"] = fmt.Sprint(err3)
+			if b != nil {
+				res["bucket_106_org"] = uint64(b.OrgID)
+				res["bucket_106_description_after"] = b.Description
+			}
+			res["escalation_reproduced"] = errClass(err1) == 1 && err3 == nil && b != nil && b.Description == d
+		}
+	}
+	vw.Extra["escalation_probe"] = res
+}
+
+var methodsSeen = map[string]int{}
+
 // ---------- generation ----------
 
 func u(v uint64) *uint64 { return &v }
@@ -802,7 +837,7 @@ func (g *gen) genCase(idx int) jcase {
 	r := g.vw.Rng
 	c := jcase{}
 	// setup: 2 orgs (3 sometimes), users, buckets, auths, urms; ids are sequential per kind
-	norg := 2 + r.IntN(2)/1*0
+	norg := 2
 	if r.IntN(5) == 0 {
 		norg = 3
 	}
@@ -819,8 +854,8 @@ func (g *gen) genCase(idx int) jcase {
 		orgIDs = append(orgIDs, uint64(i))
 	}
 	bucketIDs := []uint64{}
-	nb := 2 * norg // system buckets so far
-	for i := 1; i <= nb; i++ {
+	nb := 100 + 2*norg // system buckets so far (bucket ids start at 101)
+	for i := 101; i <= nb; i++ {
 		bucketIDs = append(bucketIDs, uint64(i))
 	}
 	for i := 0; i < 1+r.IntN(3); i++ {
@@ -850,6 +885,7 @@ func (g *gen) genCase(idx int) jcase {
 		authIDs = append(authIDs, uint64(1001+i))
 	}
 	// caller
+	var mintOrg, mintUser uint64
 	c.Caller = jcaller{Active: r.IntN(12) != 0, User: g.pick(append([]uint64{0, 9}, userIDs...))}
 	switch x := r.IntN(20); {
 	case x == 0: // operator token
@@ -861,6 +897,14 @@ func (g *gen) genCase(idx int) jcase {
 			c.Caller.Perms = append(c.Caller.Perms, fromPerm(p))
 		}
 	case x == 2: // nothing
+	case x < 6: // a token-minting member of one org: may create tokens there for one user, plus a few more permissions
+		o, us := g.pick(orgIDs), g.pick(userIDs)
+		mintOrg, mintUser = o, us
+		c.Caller.User = us
+		c.Caller.Perms = []jperm{{"write", "authorizations", nil, u(o)}, {"read", "authorizations", nil, u(o)}, {"write", "users", u(us), nil}, {"read", "users", u(us), nil}}
+		for i := r.IntN(4); i > 0; i-- {
+			c.Caller.Perms = append(c.Caller.Perms, g.genPerm(orgIDs, bucketIDs, userIDs, authIDs))
+		}
 	default:
 		n := 1 + r.IntN(6)
 		for i := 0; i < n; i++ {
@@ -918,6 +962,9 @@ func (g *gen) genCase(idx int) jcase {
 				n.Org = g.pick(append([]uint64{7}, orgIDs...))
 				n.User = g.pick(append([]uint64{8}, userIDs...))
 				n.Active = r.IntN(5) != 0
+				if mintOrg != 0 && r.IntN(4) != 0 {
+					n.Org, n.User = mintOrg, mintUser
+				}
 				for j := r.IntN(4); j > 0; j-- {
 					var p jperm
 					if len(c.Caller.Perms) > 0 && r.IntN(3) != 0 { // derived from a held permission: same, or narrowed
@@ -965,9 +1012,9 @@ func (g *gen) genCase(idx int) jcase {
 // hand-picked regression cases, run first
 func corpus() []jcase {
 	base := []jsetup{{Kind: "user", Pay: 10}, {Kind: "user", Pay: 11}, {Kind: "org", Pay: 21}, {Kind: "org", Pay: 22},
-		{Kind: "bucket", Org: 1, Pay: 31}, {Kind: "bucket", Org: 2, Pay: 32}, // buckets 5 (org 1) and 6 (org 2)
+		{Kind: "bucket", Org: 1, Pay: 31}, {Kind: "bucket", Org: 2, Pay: 32}, // buckets 105 (org 1) and 106 (org 2); system buckets 101,102 (org 1) 103,104 (org 2)
 		{Kind: "urm", User: 1, Org: 1},
-		{Kind: "auth", Org: 1, User: 1, Pay: 41, Active: true, Perms: []jperm{{"read", "buckets", u(5), u(1)}}},
+		{Kind: "auth", Org: 1, User: 1, Pay: 41, Active: true, Perms: []jperm{{"read", "buckets", u(105), u(1)}}},
 		{Kind: "auth", Org: 2, User: 2, Pay: 42, Active: true}}
 	rw := func(t string, id, org *uint64) []jperm { return []jperm{{"read", t, id, org}, {"write", t, id, org}} }
 	cat := func(xs ...[]jperm) []jperm {
@@ -989,16 +1036,16 @@ func corpus() []jcase {
 	cs = append(cs, jcase{Label: "escalation-witness", Setup: base,
 		Caller: jcaller{Active: true, User: 1, Perms: cat(rw("buckets", nil, u(1)), rw("authorizations", nil, u(1)), rw("users", u(1), nil))},
 		Ops: []jop{
-			{Op: "find1", Kind: "bucket", ID: 6},
-			{Op: "update", Kind: "bucket", ID: 6, Pay: 99},
-			{Op: "create", Kind: "auth", Var: 1, New: &jres{Kind: "auth", Org: 1, User: 1, Pay: 50, Active: true, Perms: []jperm{{"write", "buckets", u(6), u(1)}}}},
-			{Op: "create", Kind: "auth", Var: 0, New: &jres{Kind: "auth", Org: 1, User: 1, Pay: 51, Active: true, Perms: []jperm{{"write", "buckets", u(6), u(2)}}}},
-			{Op: "create", Kind: "auth", Var: 1, New: &jres{Kind: "auth", Org: 1, User: 1, Pay: 52, Active: true, Perms: []jperm{{"write", "buckets", u(6), nil}}}},
+			{Op: "find1", Kind: "bucket", ID: 106},
+			{Op: "update", Kind: "bucket", ID: 106, Pay: 99},
+			{Op: "create", Kind: "auth", Var: 1, New: &jres{Kind: "auth", Org: 1, User: 1, Pay: 50, Active: true, Perms: []jperm{{"write", "buckets", u(106), u(1)}}}},
+			{Op: "create", Kind: "auth", Var: 0, New: &jres{Kind: "auth", Org: 1, User: 1, Pay: 51, Active: true, Perms: []jperm{{"write", "buckets", u(106), u(2)}}}},
+			{Op: "create", Kind: "auth", Var: 1, New: &jres{Kind: "auth", Org: 1, User: 1, Pay: 52, Active: true, Perms: []jperm{{"write", "buckets", u(106), nil}}}},
 		}})
 	// 2. nothing held: everything denied, nothing returned
 	ops := allFinds()
 	for _, k := range kinds {
-		id := map[string]uint64{"bucket": 5, "org": 1, "user": 1, "auth": 1001}[k]
+		id := map[string]uint64{"bucket": 105, "org": 1, "user": 1, "auth": 1001}[k]
 		ops = append(ops, jop{Op: "find1", Kind: k, ID: id}, jop{Op: "update", Kind: k, ID: id, Pay: 60, Active: true}, jop{Op: "delete", Kind: k, ID: id},
 			jop{Op: "create", Kind: k, New: &jres{Kind: k, Org: 1, User: 1, Pay: 61, Active: true}})
 	}
@@ -1015,7 +1062,7 @@ func corpus() []jcase {
 		jop{Op: "create", Kind: "bucket", New: &jres{Kind: "bucket", Org: 3, Pay: 71}},
 		jop{Op: "create", Kind: "auth", Var: 1, New: &jres{Kind: "auth", Org: 3, User: 2, Pay: 72, Active: true, Perms: []jperm{{"read", "buckets", nil, u(3)}}}},
 		jop{Op: "create", Kind: "auth", Var: 1, New: &jres{Kind: "auth", Org: 1, User: 2, Pay: 73, Active: true, Perms: []jperm{{"read", "instance", nil, nil}}}},
-		jop{Op: "findn", Kind: "org", Flt: "none"}, jop{Op: "delete", Kind: "bucket", ID: 1}, jop{Op: "delete", Kind: "org", ID: 2},
+		jop{Op: "findn", Kind: "org", Flt: "none"}, jop{Op: "delete", Kind: "bucket", ID: 101}, jop{Op: "delete", Kind: "org", ID: 2},
 		jop{Op: "delete", Kind: "user", ID: 1}, jop{Op: "findn", Kind: "auth", Flt: "none"}, jop{Op: "findn", Kind: "bucket", Flt: "none"})
 	cs = append(cs, jcase{Label: "operator", Setup: base, Caller: jcaller{Active: true, User: 2, Perms: oper}, Ops: ops3})
 	// 5. instance-wide permission; tokens with instance type are refused by the authed wrapper only
@@ -1025,10 +1072,10 @@ func corpus() []jcase {
 			jop{Op: "create", Kind: "auth", Var: 0, New: &jres{Kind: "auth", Org: 1, User: 1, Pay: 81, Active: true, Perms: []jperm{{"read", "instance", nil, nil}}}})})
 	// 6. system buckets are read with the ORG read permission; org listing falls back to the caller's memberships
 	cs = append(cs, jcase{Label: "system-buckets-and-memberships", Setup: base,
-		Caller: jcaller{Active: true, User: 1, Perms: []jperm{{"read", "orgs", u(1), nil}, {"read", "buckets", nil, u(2)}, {"write", "buckets", u(1), u(1)}}},
-		Ops: []jop{{Op: "findn", Kind: "bucket", Flt: "none"}, {Op: "findn", Kind: "bucket", Flt: "org", FltArg: 1}, {Op: "find1", Kind: "bucket", ID: 1, Var: 1},
-			{Op: "find1", Kind: "bucket", ID: 3}, {Op: "findn", Kind: "org", Flt: "none"}, {Op: "findn", Kind: "org", Flt: "user", FltArg: 2},
-			{Op: "update", Kind: "bucket", ID: 1, Pay: 90}, {Op: "delete", Kind: "bucket", ID: 1}, {Op: "find1", Kind: "org", ID: 2, Var: 0}, {Op: "find1", Kind: "org", ID: 77, Var: 0},
+		Caller: jcaller{Active: true, User: 1, Perms: []jperm{{"read", "orgs", u(1), nil}, {"read", "buckets", nil, u(2)}, {"write", "buckets", u(101), u(1)}}},
+		Ops: []jop{{Op: "findn", Kind: "bucket", Flt: "none"}, {Op: "findn", Kind: "bucket", Flt: "org", FltArg: 1}, {Op: "find1", Kind: "bucket", ID: 101, Var: 1},
+			{Op: "find1", Kind: "bucket", ID: 103}, {Op: "findn", Kind: "org", Flt: "none"}, {Op: "findn", Kind: "org", Flt: "user", FltArg: 2},
+			{Op: "update", Kind: "bucket", ID: 101, Pay: 90}, {Op: "delete", Kind: "bucket", ID: 101}, {Op: "find1", Kind: "org", ID: 2, Var: 0}, {Op: "find1", Kind: "org", ID: 77, Var: 0},
 			{Op: "find1", Kind: "org", ID: 77, Var: 1}, {Op: "find1", Kind: "org", ID: 0, Var: 0}, {Op: "create", Kind: "bucket", New: &jres{Kind: "bucket", Org: 0, Pay: 91}}}})
 	// 7. tokens are visible only with read on the token AND on its user
 	cs = append(cs, jcase{Label: "auth-needs-user-too", Setup: base,
@@ -1050,6 +1097,7 @@ func main() {
 		vw.Finish()
 		return
 	}
+	probeEscalation(vw)
 	for _, c := range corpus() {
 		c := c
 		run(vw, &c)
@@ -1059,6 +1107,6 @@ func main() {
 		c := g.genCase(i)
 		run(vw, &c)
 	}
-	_ = strings.Join
+	vw.Extra["wrapper_methods_exercised"] = methodsSeen
 	vw.Finish()
 }
